@@ -70,9 +70,93 @@ def run(chk):
         sc.report(chk, 'C09', bad, sim, sent, meta)
         sims.append((sim, 'coalesced %d' % i))
     sc.compare_with_model(chk, sims, with_timers=True)
+    adversarial_term_cases(chk)
     agent_cases(chk)
     chk.assumptions += ['TLS disabled; idle timer disabled in these runs (idle-timeout termination is covered by C14); keepalive timers enabled in the coalesced-read runs',
                         'tcpcl.agent.Agent (shutdown/stop/stop_on_close over several contacts) is driven with real ContactHandlers on simulated sockets; each contact is brought to its state by a scripted peer and no peer answers after that']
+
+
+def adversarial_term_cases(chk):
+    ''' Termination against a scripted peer which answers in every order: X is in the middle of a transfer, or
+    awaits its final ACK, or has two transfers going; termination is requested by X or by the peer; the peer then
+    delivers its SESS_TERM and, for every transfer X started, either the acknowledgements or a refusal — in any
+    order, possibly coalesced into one read. Once everything has been answered X must have closed. '''
+    from props import c17
+    import tcpcl_sim as ts
+    rng, tier = chk.rng, chk.tier
+    advs = []
+    for case in range(60 if tier == 'quick' else 1200):
+        passive = rng.random() < 0.5
+        state = rng.choice(['await_ack', 'mid_tx', 'two_tx', 'established'])
+        adv = c17.Adversary(rng, passive, {'seg_init': 10})
+        x, sim = adv.x, adv.sim
+        if not adv.to_state(state):
+            continue
+        who = rng.choice(['x', 'peer'])
+        if who == 'x':
+            sim.terminate(x, 0)
+        adv.drain()
+        # what the peer owes: one answer per started transfer, and its SESS_TERM
+        answers = [('term', None)]
+        tids = sorted(set(m['tid'] for m in adv.frames() if m['k'] == 'xfer_segment'))
+        for t in tids:
+            answers.append((rng.choice(['ack', 'ack', 'refuse']), t))
+        rng.shuffle(answers)
+        order = [a for a in answers]
+        coalesce = rng.random() < 0.4
+        buf = b''
+        for step in range(40):
+            if x.closed():
+                break
+            adv.drain()
+            fr = adv.frames()
+            progressed = False
+            for (kind, t) in list(answers):
+                if kind == 'term':
+                    data = tu.rfc_encode({'k': 'sess_term', 'flags': 1 if who == 'x' else 0, 'reason': 0})
+                elif kind == 'refuse':
+                    data = tu.rfc_encode({'k': 'xfer_refuse', 'reason': 2, 'tid': t})
+                else:
+                    segs = [m for m in fr if m['k'] == 'xfer_segment' and m['tid'] == t]
+                    if not segs or not (segs[-1]['flags'] & 1):
+                        continue        # not completely sent yet: acknowledge when the END segment is out
+                    cum, data = 0, b''
+                    for m in segs:
+                        cum += len(m['data']) // 2
+                        data += tu.rfc_encode({'k': 'xfer_ack', 'flags': m['flags'], 'tid': t, 'len': cum})
+                answers.remove((kind, t))
+                progressed = True
+                if coalesce:
+                    buf += data
+                else:
+                    adv.feed(data)
+                    adv.drain()
+                if x.closed():
+                    break
+            if coalesce and buf:
+                adv.feed(buf)
+                buf = b''
+                adv.drain()
+            if not answers or not progressed:
+                break
+        adv.drain()
+        chk.case({'adversarial_term': True, 'passive': passive, 'state': state, 'who': who, 'order': [k for (k, _t) in order], 'coalesce': coalesce})
+        chk.count('adv-term:%s:%s' % (state, who))
+        bad = []
+        for o in x.obs:
+            if o.get('escaped'):
+                bad.append(('C09:escape-%s-adversarial' % o['escaped'], 'exception %s escapes a callback during termination against a scripted peer' % o['escaped']))
+                break
+        if not answers and not x.closed():
+            terms = [m for m in adv.frames() if m['k'] == 'sess_term']
+            bad.append(('C09:not-closed-after-all-answered',
+                        'state %s, termination by %s, peer answers %s%s: every transfer was acknowledged or refused and both SESS_TERMs exchanged (%d written by X), X is still open (state %s)'
+                        % (state, who, order, ' in one read' if coalesce else '', len(terms), x.h._state)))
+        for (sig, what) in bad:
+            chk.violation(sig, what, {'passive': passive, 'state': state, 'who': who, 'order': order, 'coalesce': coalesce,
+                                      'x_cfg': x.model_cfg(), 'x_events': x.events})
+        advs.append((adv, 'adversarial term %s %s %s' % (state, who, order)))
+    c17.compare(chk, advs)
 
 
 def agent_cases(chk):
